@@ -193,8 +193,11 @@ func (f *flightReader) left(k int) {
 // runPoisoned: one server, one history of n datagrams. frac/8 of them are not
 // accepted; the first few never are (the pool is poisoned before anything is
 // accepted).
-func runPoisoned(r *Rng, n int, onep bool, udpSize int, frac int) {
+func runPoisoned(r *Rng, n int, onep bool, udpSize int, frac int, deco *decoSpec) {
 	mode := fmt.Sprintf("onep=%v,udpsize=%d,non-accepted=%d/8", onep, udpSize, frac)
+	if deco != nil {
+		mode += ",decorators=" + deco.name
+	}
 	if onep {
 		old := runtime.GOMAXPROCS(1)
 		defer runtime.GOMAXPROCS(old)
@@ -202,6 +205,10 @@ func runPoisoned(r *Rng, n int, onep bool, udpSize int, frac int) {
 	budget := 440
 	if udpSize >= 1232 {
 		budget = 1100
+	}
+	eff := udpSize // the size of the server's receive buffers
+	if eff == 0 {
+		eff = dns.MinMsgSize
 	}
 	ds := make([]poisonDgram, n)
 	var in [][]byte
@@ -219,7 +226,26 @@ func runPoisoned(r *Rng, n int, onep bool, udpSize int, frac int) {
 		}
 		ds[k] = mkPoison(r, k, kind, budget)
 		kind = ds[k].kind
-		in = append(in, ds[k].wire)
+		if deco != nil && kind == pkAccept {
+			// datagrams of every size up to the receive buffer's, the limit itself and its neighbours most of all
+			room := eff - deco.pre - deco.suf
+			target := room
+			switch r.Intn(6) {
+			case 0:
+				target = room - 1
+			case 1:
+				target = room - 1 - r.Intn(40)
+			case 2:
+				target = 60 + r.Intn(room-60)
+			}
+			ds[k] = sizedRequest(r, k, target)
+			stat[fmt.Sprintf("deco_onwire_%s", sizeClass(len(ds[k].wire)+deco.pre+deco.suf, eff))]++
+		}
+		if deco != nil {
+			in = append(in, deco.wrap(r, ds[k].wire))
+		} else {
+			in = append(in, ds[k].wire)
+		}
 		if kind == pkShort {
 			shortQ = append(shortQ, k)
 		}
@@ -254,6 +280,16 @@ func runPoisoned(r *Rng, n int, onep bool, udpSize int, frac int) {
 		if k >= 1 && !netfake.WaitChan(reached[k-1], 10*time.Second) {
 			infra.Store(true)
 		}
+		// let the requests whose two further datagrams have arrived go on (decode, hand the
+		// buffer back, run the handler) before the next read asks the pool for a buffer; on one
+		// P the newest goroutine and this loop would otherwise hand the processor to each other
+		if onep {
+			for i := 0; i < 8; i++ {
+				runtime.Gosched()
+			}
+		} else {
+			time.Sleep(100 * time.Microsecond)
+		}
 	}
 	fr := &flightReader{inFlight: map[*byte]int{}, bufOf: map[int]*byte{}}
 	x := &badList{}
@@ -271,6 +307,10 @@ func runPoisoned(r *Rng, n int, onep bool, udpSize int, frac int) {
 		defer fr.left(k)
 		act := dns.DefaultMsgAcceptFunc(dh)
 		switch ds[k].kind {
+		case pkAccept:
+			if deco != nil {
+				act = dns.MsgAccept // sized requests carry a padding record more than the default policy admits
+			}
 		case pkPolicyRej:
 			act = dns.MsgReject
 		case pkPolicyNI:
@@ -343,6 +383,13 @@ func runPoisoned(r *Rng, n int, onep bool, udpSize int, frac int) {
 	}
 	srv := &dns.Server{PacketConn: pc, Handler: dns.HandlerFunc(h), UDPSize: udpSize, MsgAcceptFunc: accept, MsgInvalidFunc: invalid,
 		DecorateReader: func(in dns.Reader) dns.Reader { fr.Reader = in; return fr }}
+	if deco != nil {
+		// the buffer oracle observes what the server is given, i.e. it sits outside the decorator
+		srv.DecorateReader = func(in dns.Reader) dns.Reader { fr.Reader = &decoReader{Reader: in, spec: deco, eff: eff}; return fr }
+		if deco.writer != "none" {
+			srv.DecorateWriter = func(in dns.Writer) dns.Writer { return &decoWriter{in, deco} }
+		}
+	}
 	done := make(chan error, 1)
 	go func() { done <- srv.ActivateAndServe() }()
 	ok := netfake.WaitChan(pc.Drained, 2*infraWait)
@@ -366,6 +413,14 @@ func runPoisoned(r *Rng, n int, onep bool, udpSize int, frac int) {
 	for _, w := range pc.Writes() {
 		k := w.To.(netfake.Addr).N
 		replies[k] = append(replies[k], w.Data)
+	}
+	if deco != nil {
+		for k := range replies {
+			var why string
+			if replies[k], why = deco.undo(replies[k]); why != "" {
+				x.add(ds[k].rq, fmt.Sprintf("client %d: %s", k, why))
+			}
+		}
 	}
 	for k, d := range ds {
 		rs := replies[k]
@@ -411,10 +466,15 @@ func runPoisoned(r *Rng, n int, onep bool, udpSize int, frac int) {
 			}
 		}
 	}
-	stat["poison_datagrams_checked"] += n
-	stat["poison_accepted"] += naccept
-	for _, d := range ds {
-		stat["poison_kind_"+poisonNames[d.kind]]++
+	if deco != nil {
+		stat["deco_datagrams_checked"] += n
+		stat["deco_"+deco.name+"_checked"] += n
+	} else {
+		stat["poison_datagrams_checked"] += n
+		stat["poison_accepted"] += naccept
+		for _, d := range ds {
+			stat["poison_kind_"+poisonNames[d.kind]]++
+		}
 	}
 	fr.mu.Lock()
 	shared := fr.shared
@@ -427,7 +487,9 @@ func runPoisoned(r *Rng, n int, onep bool, udpSize int, frac int) {
 	if len(shared) > 0 {
 		Viol("C12/Pool/buffer-shared-in-flight", "a receive buffer was handed to a read while an earlier datagram in it was still waiting to be decoded", poisonIn{mode, history, "", shared})
 	}
-	if len(x.bad) > 0 {
+	if len(x.bad) > 0 && deco != nil {
+		Viol("C12/Crosstalk/udp-decorated", "with a decorated reader/writer a datagram of at most UDPSize octets did not reach its handler intact, or a client did not receive its own reply", poisonIn{mode, history, x.wire, x.bad})
+	} else if len(x.bad) > 0 {
 		Viol("C12/Crosstalk/udp-after-non-accepted", "after rejected / ignored / undecodable / short datagrams a handler did not see its client's request, or a client did not receive its own reply", poisonIn{mode, history, x.wire, x.bad})
 	}
 }
@@ -439,8 +501,201 @@ func runPoison(r *Rng, tier string) {
 	}
 	for i := 0; i < 3*k; i++ {
 		// one P: what a non-accepted datagram leaves in the pool is what the next reads get
-		runPoisoned(r, 150, true, []int{0, 512, 1232, 4096}[r.Intn(4)], 1+r.Intn(4))
+		runPoisoned(r, 150, true, []int{0, 512, 1232, 4096}[r.Intn(4)], 1+r.Intn(4), nil)
 		// all Ps (sync.Pool is per P: several rounds, more traffic)
-		runPoisoned(r, 250, false, []int{0, 4096}[r.Intn(2)], 1+r.Intn(4))
+		runPoisoned(r, 250, false, []int{0, 4096}[r.Intn(2)], 1+r.Intn(4), nil)
+	}
+}
+
+// ---------------------------------------------------------------- decorated readers and writers
+
+// decoSpec: what stands between the wire and the server. On the wire every
+// datagram carries pre octets in front of and suf octets behind the DNS message
+// (a proxy / routing header, a trailer); the decorated reader removes them and
+// hands the server
+//
+//	"sub"      the sub-slice of the buffer it got from the default reader
+//	"sub3"     the same with its capacity cut to its length
+//	"copy"     a copy in a buffer of its own
+//	"copycap"  a copy in a buffer of its own whose capacity happens to be UDPSize
+//
+// The decorated writer sends the reply unchanged ("none"), with a header in
+// front ("prefix"), with header and trailer ("enlarge"), or as two datagrams
+// ("split").
+type decoSpec struct {
+	name     string
+	pre, suf int
+	reader   string
+	writer   string
+}
+
+var decoHeader, decoTrailer = []byte("PROXYv9"), []byte{0xde, 0xc0}
+
+func (d *decoSpec) wrap(r *Rng, wire []byte) []byte {
+	b := append(r.Bytes(d.pre), wire...)
+	return append(b, r.Bytes(d.suf)...)
+}
+
+type decoReader struct {
+	dns.Reader
+	spec *decoSpec
+	eff  int
+}
+
+func (d *decoReader) ReadPacketConn(conn net.PacketConn, t time.Duration) ([]byte, net.Addr, error) {
+	m, a, err := d.Reader.(dns.PacketConnReader).ReadPacketConn(conn, t)
+	if err != nil {
+		return m, a, err
+	}
+	body := m[:0]
+	if len(m) >= d.spec.pre+d.spec.suf {
+		body = m[d.spec.pre : len(m)-d.spec.suf]
+	}
+	switch d.spec.reader {
+	case "sub3":
+		body = body[:len(body):len(body)]
+	case "copy":
+		body = append([]byte(nil), body...)
+	case "copycap":
+		c := make([]byte, len(body), d.eff)
+		copy(c, body)
+		body = c
+	}
+	return body, a, nil
+}
+
+type decoWriter struct {
+	dns.Writer
+	spec *decoSpec
+}
+
+func (d *decoWriter) Write(m []byte) (int, error) {
+	switch d.spec.writer {
+	case "prefix":
+		return d.Writer.Write(append(append([]byte(nil), decoHeader...), m...))
+	case "enlarge":
+		return d.Writer.Write(append(append(append([]byte(nil), decoHeader...), m...), decoTrailer...))
+	case "split":
+		h := len(m) / 2
+		n1, err := d.Writer.Write(m[:h])
+		if err != nil {
+			return n1, err
+		}
+		n2, err := d.Writer.Write(m[h:])
+		return n1 + n2, err
+	}
+	return d.Writer.Write(m)
+}
+
+// undo maps the datagrams one client received back to the replies written.
+func (d *decoSpec) undo(ws [][]byte) ([][]byte, string) {
+	var out [][]byte
+	switch d.writer {
+	case "prefix", "enlarge":
+		for _, w := range ws {
+			t := 0
+			if d.writer == "enlarge" {
+				t = len(decoTrailer)
+			}
+			if len(w) < len(decoHeader)+t || !bytes.HasPrefix(w, decoHeader) || (t > 0 && !bytes.HasSuffix(w, decoTrailer)) {
+				return nil, "received a datagram that is not what the decorated writer wrote"
+			}
+			out = append(out, w[len(decoHeader):len(w)-t])
+		}
+		return out, ""
+	case "split":
+		if len(ws)%2 != 0 {
+			return nil, fmt.Sprintf("received %d datagrams from a writer that sends every reply in two", len(ws))
+		}
+		for i := 0; i < len(ws); i += 2 {
+			out = append(out, append(append([]byte(nil), ws[i]...), ws[i+1]...))
+		}
+		return out, ""
+	}
+	return ws, ""
+}
+
+func sizeClass(n, eff int) string {
+	switch {
+	case n == eff:
+		return "eq_udpsize"
+	case n == eff-1:
+		return "udpsize_minus_1"
+	case n > eff:
+		return "ABOVE_udpsize"
+	case n >= eff-64:
+		return "near_udpsize"
+	}
+	return "below"
+}
+
+// sizedRequest: a rich request with ID k whose packed size is exactly target
+// (a NULL record with request-unique data at the end of the additional section
+// takes up the difference).
+func sizedRequest(r *Rng, k, target int) poisonDgram {
+	var m dns.Msg
+	for attempt := 0; ; attempt++ {
+		rq := mkRich(r, k, 0, target*2/3-40, false, forcedType(r))
+		if attempt >= 6 {
+			q := new(dns.Msg)
+			q.SetQuestion(fmt.Sprintf("c%d.sized.rt.", k), dns.TypeA)
+			w, _ := q.Pack()
+			rq = richFromWire(w, nil)
+		}
+		m = dns.Msg{}
+		if m.Unpack(append([]byte(nil), rq.wire...)) != nil {
+			continue
+		}
+		if m.Len() <= target-11 || attempt >= 6 {
+			break
+		}
+	}
+	m.Id = uint16(k)
+	if need := target - m.Len() - 11; need >= 0 {
+		tag := r.Bytes(8)
+		m.Extra = append(m.Extra, &dns.NULL{Hdr: dns.RR_Header{Name: ".", Rrtype: dns.TypeNULL, Class: 1}, Data: string(tagBytes(tag, 77, need))})
+	}
+	w, err := m.Pack()
+	rq := richFromAnyWire(w, nil)
+	if err != nil || rq == nil || len(w) > target {
+		stat["deco_sized_fallback"]++
+		q := new(dns.Msg)
+		q.SetQuestion(fmt.Sprintf("c%d.sized-fallback.rt.", k), dns.TypeA)
+		q.Id = uint16(k)
+		w, _ = q.Pack()
+		rq = richFromWire(w, nil)
+	}
+	return poisonDgram{pkAccept, rq.wire, rq}
+}
+
+var decoSpecs = []decoSpec{
+	{"strip-prefix16", 16, 0, "sub", "none"},
+	{"strip-prefix1", 1, 0, "sub", "none"},
+	{"strip-prefix33-suffix5", 33, 5, "sub", "prefix"},
+	{"strip-suffix9", 0, 9, "sub", "none"},
+	{"strip-prefix8-cap-cut", 8, 0, "sub3", "enlarge"},
+	{"strip-suffix4-cap-cut", 0, 4, "sub3", "none"},
+	{"copy-prefix12", 12, 0, "copy", "split"},
+	{"copy-full-capacity", 7, 3, "copycap", "none"},
+	{"reader-plain-writer-prefix", 0, 0, "sub", "prefix"},
+	{"reader-plain-writer-split", 0, 0, "sub", "split"},
+	{"reader-plain-writer-enlarge", 0, 0, "sub3", "enlarge"},
+}
+
+func runDecorated(r *Rng, tier string) {
+	k := 1
+	if tier == "thorough" {
+		k = 6
+	}
+	for round := 0; round < k; round++ {
+		for i := range decoSpecs {
+			d := &decoSpecs[i]
+			udp := []int{0, 512, 1232, 4096}[(i+round)%4]
+			// one P: the same few buffers go round and round, any drift accumulates quickly
+			runPoisoned(r, 140, true, udp, r.Intn(3), d)
+			if (i+round)%2 == 0 { // all Ps, handlers concurrent
+				runPoisoned(r, 200, false, []int{0, 1232}[r.Intn(2)], r.Intn(2), d)
+			}
+		}
 	}
 }
